@@ -330,6 +330,15 @@ Definition join (a b : cty) : option cty :=
       end
   end.
 
+Definition cty_eqb (a b : cty) : bool :=
+  match a, b with
+  | CBit, CBit | CBool, CBool | CInteger, CInteger | CNull, CNull | CFull, CFull => true
+  | CBV n, CBV m | CU n, CU m | CS n, CS m => (n =? m)%N
+  | CIntLit x, CIntLit y => x =? y
+  | CStrLit l x, CStrLit l' y => (l =? l')%N && (x =? y)
+  | _, _ => false
+  end.
+
 (** ** assignment forms *)
 
 Inductive form :=
@@ -365,8 +374,23 @@ Definition assign_ok (f : form) (src tgt : cty) : bool :=
   | FElem _ => match tgt with CBit => stmt_ok tgt src tgt | _ => false end
   | FDeclSig | FDeclVar => decl_ok src tgt
   | FDeclStatic => ctor src tgt
-  | FPortIn => is_runtime src && trial src tgt     (* a literal actual crashes (AttributeError) *)
-  | FPortOut => trial tgt src
+  (* Entity.__init__ (_context.py, as patched by efe8b9f): trial assignment in the direction of the data flow, then
+     formal and actual must have the same type (a port map carries no conversion); a literal actual crashes *)
+  | FPortIn => is_runtime src && trial src tgt && cty_eqb src tgt
+  | FPortOut => is_runtime src && trial src tgt && trial tgt src && cty_eqb src tgt
   | FIfA | FRetA => merge_ok src tgt tgt
   | FIfB | FRetB => merge_ok tgt src tgt
   end.
+
+(** ** the tree with /verif/seeded/_proposed_fixes/C05_decl_trial_assign.diff: declarations with a run-time vector as
+    initial value make the trial assignment of the setters (harness: C05_MODEL=declfix) *)
+Definition decl_ok_fixed (src tgt : cty) : bool :=
+  if is_runtime src then
+    match vec_of src, vec_of tgt with
+    | Some _, Some _ => trial src tgt && emits tgt tgt src
+    | _, _ => emits tgt tgt src
+    end
+  else ctor src tgt.
+
+Definition assign_ok_declfix (f : form) (src tgt : cty) : bool :=
+  match f with FDeclSig | FDeclVar => decl_ok_fixed src tgt | _ => assign_ok f src tgt end.
